@@ -766,3 +766,12 @@ Proof.
   apply split_at_char in H; auto. destruct H as [-> H]. split; auto.
   apply app_str_inj_r in H. now apply join_inj.
 Qed.
+
+(* the label of a template's instances (template_source) is renamed with the template *)
+Theorem template_label_renamed l ls d k e p :
+  d_term d = false -> d_opts d = ORule k e p (Some (d_name d)) ->
+  d_opts (mangle_def (l :: ls) d) = ORule k e p (Some (d_name (mangle_def (l :: ls) d))).
+Proof. intros Ht Ho. unfold mangle_def. simpl. rewrite Ht, Ho. reflexivity. Qed.
+
+Theorem top_level_options_unchanged d : d_opts (mangle_def [] d) = d_opts d.
+Proof. unfold mangle_def, mangle_opts. simpl. reflexivity. Qed.
